@@ -144,3 +144,54 @@ theorem draw_lines_selfContained (s : Shape) (a : Args) (h : ArgsOk a) :
   lines_selfContained _ (draw_pieces s a h)
 
 end DrawProofs
+
+/-! ### The CR step of ingest keeps a balanced line balanced -/
+namespace IngestProofs
+open Term Line LineProofs
+
+theorem splitLastCr_eq (line a t : List Char) (h : splitLastCr line = some (a, t)) :
+    line = a ++ '\r' :: t := by
+  induction line generalizing a t with
+  | nil => simp [splitLastCr] at h
+  | cons c cs ih =>
+    simp only [splitLastCr] at h
+    cases hs : splitLastCr cs with
+    | some p =>
+      obtain ⟨a', t'⟩ := p
+      simp only [hs, Option.some.injEq, Prod.mk.injEq] at h
+      obtain ⟨rfl, rfl⟩ := h
+      simp [ih a' t' hs]
+    | none =>
+      simp only [hs] at h
+      split at h
+      · next hc => simp only [Option.some.injEq, Prod.mk.injEq] at h; obtain ⟨rfl, rfl⟩ := h; simp [hc]
+      · cases h
+
+/-- A CR read in ground mode is an ordinary character: dropping it does not change the state the
+terminal ends in. -/
+theorem final_drop_cr (s : State) (a t : List Char) (hm : (final s a).mode = .ground) :
+    final s (a ++ '\r' :: t) = final s (a ++ t) := by
+  rw [final_append, final_append]
+  generalize final s a = s' at hm ⊢
+  have hne : ('\r' : Char) ≠ ESC := by decide
+  simp [final, run, step, hm, hne]
+
+theorem keeps_tail : Generated.StyleTables.crStepKeepsTail = true := by decide
+
+/-- **The CR step keeps a balanced line balanced** (and an unbalanced one unbalanced), provided the
+last CR is not inside an escape sequence. -/
+theorem crStep_selfContained (tz : Bool) (line : List Char)
+    (hcr : ∀ a t, splitLastCr line = some (a, t) → (final init a).mode = .ground) :
+    final init (crStep tz line) = final init line := by
+  unfold crStep
+  cases hs : splitLastCr line with
+  | none => rfl
+  | some p =>
+    obtain ⟨a, t⟩ := p
+    cases tz with
+    | false => rfl
+    | true =>
+      simp only [if_true, keeps_tail]
+      rw [splitLastCr_eq line a t hs, final_drop_cr init a t (hcr a t hs)]
+
+end IngestProofs
